@@ -133,7 +133,12 @@ class LRTDP(Plans):
             return DictDistribution.uniform(max_actions)
 
         res.policy = policy
-        res.initial_value = sum([res.V[s0]*p for s0, p in mdp.initial_state_dist().items()])
+        # absorbing initial states are worth 0 (V may never have been stored for them,
+        # in which case the lookup would fall through to the heuristic)
+        res.initial_value = sum([
+            res.V[s0]*p for s0, p in mdp.initial_state_dist().items()
+            if not mdp.is_absorbing(s0)
+        ])
 
         #clear result
         self.res = None
